@@ -390,13 +390,6 @@ def check_xml_bytes(a):
 
 def covered_xml(a, msg):
     data = bytes.fromhex(a["hex"])
-    enc = F.declared_encoding(data)
-    if msg.startswith("native:") and "escaped" in msg and enc is not None:
-        r = F.pyexpat_unknown_encoding(enc)
-        if r is not None and ("LEAK:" + r) in msg:
-            return "C15-xml-unknown-encoding"
-    if msg.startswith("lxml: result is not an instance") and not F.libxml2_reading(data, as_expat=False)[1]:
-        return "C15-lxml-partial-result"
     if msg.startswith("lxml: LEAK:UnicodeDecodeError") and F.has_surrogate_charref(data):
         return "C15-lxml-surrogate-charref"
     if msg.startswith("native: XmlEventHandler accepted") and F.libxml2_reading(data)[2]:
@@ -464,47 +457,6 @@ def check_json(a):
     return "%s escaped at %s: %s" % (r["err"], site, r.get("msg", ""))
 
 
-JSON_FINDING_SITES = [
-    # (exception, site substring, message substring, finding id)
-    ("LEAK:AssertionError", "parsers/dict.py:bind_complex_type", "", "C15-json-object-for-primitive"),
-    ("LEAK:TypeError", "parsers/dict.py:bind_value", "is not iterable", "C15-json-attributes-non-mapping"),
-    ("LEAK:TypeError", "parsers/dict.py:bind_value", "cannot convert dictionary update sequence", "C15-json-attributes-non-mapping"),
-    ("LEAK:ValueError", "parsers/dict.py:bind_value", "dictionary update sequence", "C15-json-attributes-non-mapping"),
-    ("LEAK:TypeError", "formats/converter.py:serialize", "sequence item", "C15-json-null-token"),
-    ("LEAK:RecursionError", "parsers/json.py:load_json", "", "C15-json-deep-nesting"),
-    ("LEAK:TypeError", "parsers/dict.py:bind_dataclass", "indices must be integers", "C15-json-wrapper-subscript"),
-    ("LEAK:TypeError", "", "unhashable type", "C15-json-unhashable-xsi-type"),
-]
-
-
-def _model_outcome(a):
-    """the Lean model's outcome for a dict.decode case (None when the driver cannot be asked)"""
-    import framework
-
-    try:
-        return framework.Driver().run([{"op": "dict.decode", "args": {k: a[k] for k in ("ctx", "clazz", "config", "loaded", "list_of", "fuel")}}])[0]
-    except Exception:  # noqa: BLE001
-        return None
-
-
-def covered_json(a, msg):
-    """a failing input belongs to a listed finding when the exception type, the raising site and
-    the message are the finding's — and, for inputs inside the fragment of the decoder model
-    (which reproduces every listed defect and is proved to have no others), when the model
-    places that very leak on this input.  A leak of a listed kind at a listed site on an input
-    where the model expects none is a new defect."""
-    fid = None
-    for exc, site, text, f in JSON_FINDING_SITES:
-        if msg.startswith(exc + " escaped at ") and site in msg.split(" escaped at ", 1)[1].split(": ", 1)[0] and text in msg:
-            fid = f
-            break
-    if fid and "loaded" in a and "ctx" in a:
-        mo = _model_outcome(a)
-        if mo is not None and not unsupported(mo) and "fail" not in mo and mo.get("err") != msg.split(" ", 1)[0]:
-            return None
-    return fid
-
-
 def gen_oracle_json(rng, tier):
     """valid JSON serializations, value-level faults (DictDecoder.decode) and byte-level faults
     (JsonParser.from_bytes)"""
@@ -533,7 +485,7 @@ ORACLES = [
     Oracle("c15.tree", gen_oracle_tree, check_tree, from_ops=("bind.parse",)),
     Oracle("c15.xml_bytes", gen_oracle_xml, check_xml_bytes, covered=covered_xml,
            from_ops=("fault.document", "fault.document.lxml"), adapt=adapt_xml),
-    Oracle("c15.json", gen_oracle_json, check_json, covered=covered_json, from_ops=("dict.decode",),
+    Oracle("c15.json", gen_oracle_json, check_json, from_ops=("dict.decode",),
            adapt=lambda op, a: {k: a[k] for k in ("hex", "json", "clazz", "config", "list_of", "desc", "_uni", "_kind", "ctx", "loaded", "fuel") if k in a}),
 ]
 
@@ -572,24 +524,6 @@ def _raises(fn, exc_name):
     return False, "no exception"
 
 
-def _json_finding(doc: bytes, exc_name):
-    def run():
-        from xsdata.formats.dataclass.parsers import JsonParser
-
-        Doc = _mini()
-        return _raises(lambda: JsonParser().from_bytes(doc, Doc), exc_name)
-
-    return run
-
-
-def _xml_encoding_finding():
-    from xsdata.formats.dataclass.parsers import XmlParser
-    from xsdata.formats.dataclass.parsers.handlers import XmlEventHandler
-
-    Doc = _mini()
-    return _raises(lambda: XmlParser(handler=XmlEventHandler).from_bytes(b'<?xml version="1.0" encoding="UTF78"?><Doc/>', Doc), "LookupError")
-
-
 def _xml_version_finding():
     from xsdata.formats.dataclass.parsers import XmlParser
     from xsdata.formats.dataclass.parsers.handlers import XmlEventHandler
@@ -610,29 +544,9 @@ def _lxml_surrogate_finding():
     return _raises(lambda: XmlParser(handler=LxmlEventHandler).from_bytes(b"<Doc><x>1&#xD800;</x></Doc>", Doc), "UnicodeDecodeError")
 
 
-def _lxml_partial_finding():
-    from xsdata.formats.dataclass.parsers import XmlParser
-    from xsdata.formats.dataclass.parsers.handlers import LxmlEventHandler
-
-    Doc = _mini()
-    try:
-        r = XmlParser(handler=LxmlEventHandler).from_bytes(b'<?xml version="1.0" encoding="us-ascii"?><Doc><x>1</x><c><y>\xc3\xa9</y></c></Doc>', Doc)
-    except Exception as e:  # noqa: BLE001
-        return False, f"now an error: {type(e).__name__}"
-    return (not isinstance(r, Doc)), "returned " + repr(r)[:60]
-
-
 FINDINGS = {
-    "C15-json-object-for-primitive": _json_finding(b'{"x": {"a": 1}}', "AssertionError"),
-    "C15-json-attributes-non-mapping": _json_finding(b'{"at": 5}', "TypeError"),
-    "C15-json-null-token": _json_finding(b'{"t": [null]}', "TypeError"),
-    "C15-json-deep-nesting": _json_finding(b"[" * 100000 + b"]" * 100000, "RecursionError"),
-    "C15-json-wrapper-subscript": _json_finding(b'{"b": ["a"]}', "TypeError"),
-    "C15-json-unhashable-xsi-type": _json_finding(b'{"x": {"qname": "q", "type": [1], "value": {}}}', "TypeError"),
-    "C15-xml-unknown-encoding": _xml_encoding_finding,
     "C15-xml-version-number": _xml_version_finding,
     "C15-lxml-surrogate-charref": _lxml_surrogate_finding,
-    "C15-lxml-partial-result": _lxml_partial_finding,
 }
 
 TRUSTED = [
@@ -650,10 +564,11 @@ LEVEL_TEXT = (
     "Lean theorem over every element tree, every class universe (arbitrary metadata), every parser config: the tree-level parser "
     "(NodeParser + Element/Primitive/Standard/Wildcard/Skip/Wrapper nodes + ParserUtils) ends in a value, ParserError, ConverterError or "
     "XmlContextError (or leaves the modelled fragment), never in another exception type; the byte-level entry point adds the "
-    "SyntaxError->ParserError translation and is proved leak-free except for the listed unknown-encoding defect (counterexample theorem). "
+    "SyntaxError->ParserError and codec-error->ParserError translations and is proved leak-free for every tokenizer outcome (no_leak_document). "
     "Tied to /repo by a differential check on every tree-level fault kind and on byte-level faults (truncation at each offset, flips, "
-    "deletions, undeclared prefixes, wrong root, encodings, random bytes) for both handlers; JSON/dict decoder by fault enumeration with "
-    "the remaining reproduced leaks listed as known findings (four were repaired in /repo ca8f47f)."
+    "deletions, undeclared prefixes, wrong root, encodings, random bytes) for both handlers; the JSON/dict decoder model is proved leak-free "
+    "for every loaded value and every json.load outcome (no_leak_dict, no_leak_json) and tied to /repo by value-level and byte-level fault "
+    "enumeration. Two tokenizer-level behaviours (expat version numbers, lxml surrogate references) stay listed as known findings."
 )
 LEVEL_NOTE = (
     "Trusted: Lean kernel; expat/libxml2 (outcome taken as input); the sampling correspondence. Not covered by proof: UnionNode, "
